@@ -1,16 +1,24 @@
-(* Field data-flow of Trajectory.slice / join / stack / atom_slice as a small term language (DESIGN.md 4.1-T3).
-   harness/props/C03.py:translate re-extracts these terms from mdtraj/core/trajectory.py on every run and writes
-   them to coq/Gen/TrajFlow.v, where they must be recognised ([flows_known]) as the flows that MD.Traj.Model
-   implements: one reference flow per method, two for the two places where a defect and its repair differ.
-   Executable definitions and their (decidable) recognisers only. *)
-From Coq Require Import List Bool.
+(* Field data-flow of the Trajectory methods as a small term language WITH A SEMANTICS (DESIGN.md 3.5, 4.1-T3).
+   harness/props/C03.py:translate re-extracts, with Python's ast, which source expression feeds every output
+   field of slice / join / stack / atom_slice and which attributes the in-place methods (xyz, time and unitcell
+   setters, center_coordinates, superpose, atom_slice(inplace=True), remove_solvent) assign, and writes the terms
+   to coq/Gen/TrajFlow.v.  Here the terms get a meaning: [norm] brings a term to a descriptor (which operand,
+   which field, how indexed, how fresh), and [slice_with], [join_with], [stack_with], [atom_slice_with],
+   [inplace_with] interpret descriptors as operations on the worlds of MD.Traj.Model -- for EVERY descriptor in
+   their domain, not only the right ones: a dropped .copy() is a slice that shares, lengths fed from angles is a
+   trajectory with swapped cell fields, a missing cache reset is a stale cache.  MD.Traj.FlowProofs proves
+   [check_* t = true -> sem t = the model's operation]; each run re-proves [check_* = true] for the extracted terms.
+   Executable definitions only. *)
+From Coq Require Import List Arith ZArith Bool.
 Import ListNotations.
 Require Import MD.Traj.Model.
 
+(* ------------------------------------------------------------------ terms *)
 Inductive src := SXyz | STime | SLen | SAng | STraces | STop.
+Inductive operand := OSelf | OOther.
 
 Inductive fexp :=
-| FField (s : src)          (* self.<field> *)
+| FField (o : operand) (s : src)   (* self.<field> / other.<field> *)
 | FIdx (e : fexp)           (* e[key] *)
 | FAtoms (e : fexp)         (* e[:, atom_indices] *)
 | FCopy (e : fexp)          (* e.copy() / np.array(e, order="C") *)
@@ -22,62 +30,449 @@ Inductive fexp :=
 | FSubset                   (* self._topology.subset(atom_indices) *)
 | FTopJoin                  (* self.topology.join(other.topology) *)
 | FNone                     (* None / not passed on *)
-| FKeep.                    (* attribute not assigned: keeps its value (in-place branch) *)
+| FKeep                     (* attribute not assigned: keeps its value *)
+| FArg                      (* the value handed to a setter *)
+| FEnsure (e : fexp)        (* ensure_type(e, ...): e itself when C-contiguous float32, a copy otherwise *)
+| FCentred                  (* the traces returned by _rmsd._center_inplace_atom_major(self._xyz) *)
+| FSetter (e : fexp).       (* assignment through the xyz property (runs the xyz setter) *)
 
 Record flow := mkFlow { f_xyz : fexp; f_time : fexp; f_len : fexp; f_ang : fexp; f_top : fexp; f_traces : fexp }.
+
+(* ------------------------------------------------------------------ descriptors (normal forms) *)
+Inductive fresh := FrSame | FrIfCopy | FrFresh.
+Inductive access := AWhole | AKey | AAtoms.
+Inductive dsrc :=
+| DF (o : operand) (s : src) (a : access)
+| DConcat (s : src) | DHstack | DSubset | DTopJoin | DNone | DKeep | DArg | DCentred.
+Record desc := mkDesc { d_src : dsrc; d_fresh : fresh; d_setter : bool }.
 
 Definition src_eqb (a b : src) : bool :=
   match a, b with
   | SXyz, SXyz | STime, STime | SLen, SLen | SAng, SAng | STraces, STraces | STop, STop => true
   | _, _ => false
   end.
-
-Fixpoint fexp_eqb (a b : fexp) : bool :=
+Definition operand_eqb (a b : operand) : bool := match a, b with OSelf, OSelf | OOther, OOther => true | _, _ => false end.
+Definition access_eqb (a b : access) : bool :=
+  match a, b with AWhole, AWhole | AKey, AKey | AAtoms, AAtoms => true | _, _ => false end.
+Definition fresh_eqb (a b : fresh) : bool :=
+  match a, b with FrSame, FrSame | FrIfCopy, FrIfCopy | FrFresh, FrFresh => true | _, _ => false end.
+Definition dsrc_eqb (a b : dsrc) : bool :=
   match a, b with
-  | FField s, FField s' => src_eqb s s'
-  | FIdx x, FIdx y | FAtoms x, FAtoms y | FCopy x, FCopy y | FCopyIf x, FCopyIf y | FDeep x, FDeep y
-  | FArr1 x, FArr1 y => fexp_eqb x y
-  | FConcat s, FConcat s' => src_eqb s s'
-  | FHstack, FHstack | FSubset, FSubset | FTopJoin, FTopJoin | FNone, FNone | FKeep, FKeep => true
+  | DF o s x, DF o' s' x' => operand_eqb o o' && src_eqb s s' && access_eqb x x'
+  | DConcat s, DConcat s' => src_eqb s s'
+  | DHstack, DHstack | DSubset, DSubset | DTopJoin, DTopJoin | DNone, DNone | DKeep, DKeep | DArg, DArg
+  | DCentred, DCentred => true
   | _, _ => false
   end.
+Definition desc_eqb (a b : desc) : bool :=
+  dsrc_eqb (d_src a) (d_src b) && fresh_eqb (d_fresh a) (d_fresh b) && Bool.eqb (d_setter a) (d_setter b).
 
-Definition flow_eqb (a b : flow) : bool :=
-  fexp_eqb (f_xyz a) (f_xyz b) && fexp_eqb (f_time a) (f_time b) && fexp_eqb (f_len a) (f_len b) &&
-  fexp_eqb (f_ang a) (f_ang b) && fexp_eqb (f_top a) (f_top b) && fexp_eqb (f_traces a) (f_traces b).
+(* copies compose: a copy of anything is fresh; "copy if asked" of something fresh is fresh.
+   Indexing is only understood directly on a field (as the code writes it). *)
+Fixpoint norm (e : fexp) : option desc :=
+  match e with
+  | FField o s => Some (mkDesc (DF o s AWhole) FrSame false)
+  | FIdx x => match norm x with
+              | Some (mkDesc (DF o s AWhole) FrSame false) => Some (mkDesc (DF o s AKey) FrSame false)
+              | _ => None
+              end
+  | FAtoms x => match norm x with
+                | Some (mkDesc (DF o s AWhole) FrSame false) => Some (mkDesc (DF o s AAtoms) FrFresh false)   (* fancy indexing copies *)
+                | _ => None
+                end
+  | FCopy x | FDeep x | FArr1 x =>
+      match norm x with Some d => Some (mkDesc (d_src d) FrFresh (d_setter d)) | None => None end
+  | FCopyIf x =>
+      match norm x with
+      | Some d => Some (mkDesc (d_src d) (match d_fresh d with FrFresh => FrFresh | _ => FrIfCopy end) (d_setter d))
+      | None => None
+      end
+  | FConcat s => Some (mkDesc (DConcat s) FrFresh false)
+  | FHstack => Some (mkDesc DHstack FrFresh false)
+  | FSubset => Some (mkDesc DSubset FrFresh false)
+  | FTopJoin => Some (mkDesc DTopJoin FrFresh false)
+  | FNone => Some (mkDesc DNone FrSame false)
+  | FKeep => Some (mkDesc DKeep FrSame false)
+  | FArg => Some (mkDesc DArg FrSame false)
+  | FEnsure x => norm x                         (* ensure_type keeps a conforming array as it is (the harness hands such arrays) *)
+  | FCentred => Some (mkDesc DCentred FrFresh false)
+  | FSetter x => match norm x with Some d => Some (mkDesc (d_src d) (d_fresh d) true) | None => None end
+  end.
 
-(* ---- reference flows: what MD.Traj.Model.do_slice / join_trajs / do_stack / do_atom_slice implement *)
-Definition slice_common (traces : fexp) : flow :=
-  mkFlow (FCopyIf (FIdx (FField SXyz))) (FCopyIf (FIdx (FField STime))) (FCopyIf (FIdx (FField SLen)))
-         (FCopyIf (FIdx (FField SAng))) (FCopyIf (FField STop)) traces.
-Definition slice_flow_as_found := slice_common (FCopyIf (FField STraces)).       (* the whole cache, unindexed *)
-Definition slice_flow_repaired := slice_common (FArr1 (FIdx (FField STraces))).  (* the cache indexed like the rest *)
-(* the same with the (then redundant) second .copy() under `if copy:` left in place *)
-Definition slice_flow_repaired' := slice_common (FCopyIf (FArr1 (FIdx (FField STraces)))).
+Definition eff_copy (f : fresh) (copy : bool) : bool :=
+  match f with FrSame => false | FrIfCopy => copy | FrFresh => true end.
+Definition kpos (a : access) (n : nat) (k : key) : err + (list nat * kshape) :=
+  match a with AKey => key_positions n k | _ => inr (seq 0 n, KsView true) end.
 
-Definition join_flow_ref : flow :=
-  mkFlow (FConcat SXyz) (FConcat STime) (FConcat SLen) (FConcat SAng) (FDeep (FField STop)) FNone.
-Definition stack_flow_ref : flow :=
-  mkFlow FHstack (FField STime) (FField SLen) (FField SAng) FTopJoin FNone.
-Definition atom_slice_flow_ref : flow :=
-  mkFlow (FCopy (FAtoms (FField SXyz))) (FCopy (FField STime)) (FCopy (FField SLen)) (FCopy (FField SAng)) FSubset FNone.
-(* in-place branch of atom_slice: which attributes of self are assigned *)
-Definition aslice_inplace_common (traces : fexp) : flow :=
-  mkFlow (FCopy (FAtoms (FField SXyz))) FKeep FKeep FKeep FSubset traces.
-Definition aslice_inplace_as_found := aslice_inplace_common FKeep.
-Definition aslice_inplace_repaired := aslice_inplace_common FNone.
+(* the unit-cell array of a register that a (SLen | SAng) source denotes *)
+Definition cell_of (s : src) (t : traj) : option (option (arr cval)) :=
+  match s with SLen => Some (ul t) | SAng => Some (ua t) | _ => None end.
 
-(* the variant of the model that a pair of extracted flows denotes *)
-Definition variant_of_flows (sl ip : flow) : option variant :=
-  let a := if flow_eqb sl slice_flow_repaired || flow_eqb sl slice_flow_repaired' then Some true
-           else if flow_eqb sl slice_flow_as_found then Some false else None in
-  let b := if flow_eqb ip aslice_inplace_repaired then Some true
-           else if flow_eqb ip aslice_inplace_as_found then Some false else None in
-  match a, b with Some x, Some y => Some (mkVar x y false) | _, _ => None end.
+(* ------------------------------------------------------------------ slice(key, copy) from descriptors *)
+Definition slice_cell (w : world) (k : key) (d : desc) (t : traj) (copy : bool)
+    : option (err + (world * option (arr cval))) :=
+  match d_src d with
+  | DF OSelf s a =>
+    match cell_of s t with
+    | Some o =>
+      Some (match o with
+            | None => inr (w, None)
+            | Some c => match kpos a (length (a_val c)) k with
+                        | inl e => inl e
+                        | inr (idx, shp) =>
+                          let '(w1, a') := slice_arr (CSrc 0 0) w c idx shp (eff_copy (d_fresh d) copy) true false in
+                          inr (w1, Some a')
+                        end
+            end)
+    | None => None
+    end
+  | DNone => Some (inr (w, None))
+  | _ => None
+  end.
 
-Definition flows_known (sl ip jn st asl : flow) (v : variant) : bool :=
-  match variant_of_flows sl ip with
-  | Some v' => Bool.eqb (slice_indexes_traces v) (slice_indexes_traces v') &&
-               Bool.eqb (aslice_inplace_resets v) (aslice_inplace_resets v')
+Definition slice_with (dx dt dl da dtop dtr : desc) (w : world) (r : nat) (k : key) (copy : bool) : world * res :=
+  match nth_error (trajs w) r with
+  | None => (w, RErr EOther)
+  | Some t =>
+    match d_src dx, d_src dt, d_src dtop with
+    | DF OSelf SXyz ax, DF OSelf STime at_, DF OSelf STop AWhole =>
+      match kpos ax (nframes t) k with
+      | inl e => (w, RErr e)
+      | inr (xi, xs) =>
+        match kpos at_ (length (a_val (tm t))) k with
+        | inl e => (w, RErr e)
+        | inr (ti, ts) =>
+          match slice_cell w k da t copy with
+          | None => (w, RErr EOther)
+          | Some (inl e) => (w, RErr e)
+          | Some (inr (w1, ua')) =>
+            match slice_cell w1 k dl t copy with
+            | None => (w, RErr EOther)
+            | Some (inl e) => (w, RErr e)
+            | Some (inr (w2, ul')) =>
+              let fs := sel dfr (frames w t) xi in
+              let shares_x := negb (eff_copy (d_fresh dx) copy) &&
+                              match xs with KsFancy => false | KsRow => true | KsView c => c end in
+              let '(w3, b', p') := if shares_x then (w2, xb t, sel 0 (xp t) xi)
+                                   else let '(wa, b) := alloc_x w2 fs in (wa, b, seq 0 (length fs)) in
+              let '(w4, tm') := slice_arr (TAr 0) w3 (tm t) ti ts (eff_copy (d_fresh dt) copy) false true in
+              let '(w5, tl') := if eff_copy (d_fresh dtop) copy then fresh_top w4 else (w4, tloc t) in
+              let '(w6, tr') :=
+                match tr t with
+                | None => (w5, None)
+                | Some c =>
+                  match d_src dtr with
+                  | DF OSelf STraces a =>
+                    match kpos a (length (a_val c)) k with
+                    | inl _ => (w5, None)
+                    | inr (ci, _) =>
+                      if eff_copy (d_fresh dtr) copy then let '(wa, c') := new_arr w5 (sel dfr (a_val c) ci) in (wa, Some c')
+                      else (w5, Some (view_arr dfr c ci))
+                    end
+                  | _ => (w5, None)
+                  end
+                end in
+              match construct w6 b' p' (na t) tl' (chains t) tm' ul' ua' with
+              | (_, RErr e) => (w, RErr e)
+              | (w7, ROk) =>
+                let i := length (trajs w) in
+                match nth_error (trajs w7) i with
+                | None => (w, RErr EOther)
+                | Some nt => (put w7 i (mkTraj (xb nt) (xp nt) (na nt) (tm nt) (ul nt) (ua nt) (tloc nt) (chains nt) tr' (tdef nt)), ROk)
+                end
+              end
+            end
+          end
+        end
+      end
+    | _, _, _ => (w, RErr EOther)       (* outside the interpreter: the checker rejects it *)
+    end
+  end.
+
+Definition slice_sem (f : flow) : option (world -> nat -> key -> bool -> world * res) :=
+  match norm (f_xyz f), norm (f_time f), norm (f_len f), norm (f_ang f), norm (f_top f), norm (f_traces f) with
+  | Some dx, Some dt, Some dl, Some da, Some dtop, Some dtr => Some (slice_with dx dt dl da dtop dtr)
+  | _, _, _, _, _, _ => None
+  end.
+
+(* ------------------------------------------------------------------ join from descriptors *)
+(* which per-frame list of an operand a concatenation source denotes *)
+Definition cat_cell (s : src) (o : traj) : option (list cval) :=
+  match s with SLen => Some (oval (ul o)) | SAng => Some (oval (ua o)) | _ => None end.
+
+Definition join_with (dl da dtop : desc) (w : world) (t : traj) (others : list traj) (check_top dis : bool) : world * res :=
+  match d_src dl, d_src da, d_src dtop with
+  | DConcat sl, DConcat sa, DF OSelf STop AWhole =>
+    match cat_cell sl t, cat_cell sa t with
+    | Some _, Some _ =>
+      if negb (forallb (fun o => Nat.eqb (na t) (na o)) others) then (w, RErr EValue)
+      else if check_top && negb (forallb (fun o => list_eqb (list_eqb Nat.eqb) (chains t) (chains o)) others) then (w, RErr EValue)
+      else if negb (forallb (fun o => Bool.eqb (have_cell t) (have_cell o)) others) then (w, RErr EValue)
+      else
+        let all := t :: others in
+        match join_plan dis (map (frames w) all) with
+        | None => (w, RErr EIndex)
+        | Some plan =>
+          let fs := jparts plan (map (frames w) all) in
+          let '(w1, b) := alloc_x w fs in
+          let '(w2, tm') := new_arr w1 (jparts plan (map (fun o => a_val (tm o)) all)) in
+          let cat s := jparts plan (map (fun o => match cat_cell s o with Some l => l | None => [] end) all) in
+          let '(w3, ua') := if have_cell t then let '(wa, a) := new_arr w2 (cat sa) in (wa, Some a) else (w2, None) in
+          let '(w4, ul') := if have_cell t then let '(wa, a) := new_arr w3 (cat sl) in (wa, Some a) else (w3, None) in
+          let '(w5, tl) := if eff_copy (d_fresh dtop) true then fresh_top w4 else (w4, tloc t) in
+          match construct w5 b (seq 0 (length fs)) (na t) tl (chains t) tm' ul' ua' with
+          | (_, RErr e) => (w, RErr e)
+          | ok => ok
+          end
+        end
+    | _, _ => (w, RErr EOther)
+    end
+  | _, _, _ => (w, RErr EOther)
+  end.
+
+Definition join_sem (f : flow) : option (world -> traj -> list traj -> bool -> bool -> world * res) :=
+  match norm (f_xyz f), norm (f_time f), norm (f_len f), norm (f_ang f), norm (f_top f), norm (f_traces f) with
+  | Some (mkDesc (DConcat SXyz) FrFresh false), Some (mkDesc (DConcat STime) FrFresh false), Some dl, Some da, Some dtop,
+    Some (mkDesc DNone _ _) => Some (join_with dl da dtop)
+  | _, _, _, _, _, _ => None
+  end.
+
+(* ------------------------------------------------------------------ stack from descriptors *)
+Definition pick (o : operand) (t other : traj) : traj := match o with OSelf => t | OOther => other end.
+
+(* an array handed to the constructor: as it is (through ensure_type) or a fresh copy *)
+Definition pass_oarr (w : world) (f : fresh) (o : option (arr cval)) : world * option (arr cval) :=
+  if eff_copy f true then copy_oarr w o else ensure_oarr w o.
+
+Definition stack_with (dt dl da : desc) (w : world) (r r' : nat) : world * res :=
+  match nth_error (trajs w) r, nth_error (trajs w) r' with
+  | Some t, Some o =>
+    match d_src dt, d_src dl, d_src da with
+    | DF ot STime AWhole, DF ol sl AWhole, DF oa sa AWhole =>
+      match cell_of sl (pick ol t o), cell_of sa (pick oa t o) with
+      | Some lsrc, Some asrc =>
+        if negb (Nat.eqb (nframes t) (nframes o)) then (w, RErr EValue) else
+        let fs := zip_stk (frames w t) (frames w o) in
+        let '(w1, b) := alloc_x w fs in
+        let '(w2, tl) := fresh_top w1 in
+        let '(w3, ul') := pass_oarr w2 (d_fresh dl) lsrc in
+        let '(w4, ua') := pass_oarr w3 (d_fresh da) asrc in
+        let '(w5, tm') := if eff_copy (d_fresh dt) true then copy_arr w4 (tm (pick ot t o)) else (w4, tm (pick ot t o)) in
+        match construct w5 b (seq 0 (length fs)) (na t + na o) tl (chains t ++ chains o) tm' ul' ua' with
+        | (_, RErr e) => (w, RErr e)
+        | ok => ok
+        end
+      | _, _ => (w, RErr EOther)
+      end
+    | _, _, _ => (w, RErr EOther)
+    end
+  | _, _ => (w, RErr EOther)
+  end.
+
+Definition stack_sem (f : flow) : option (world -> nat -> nat -> world * res) :=
+  match norm (f_xyz f), norm (f_time f), norm (f_len f), norm (f_ang f), norm (f_top f), norm (f_traces f) with
+  | Some (mkDesc DHstack FrFresh false), Some dt, Some dl, Some da, Some (mkDesc DTopJoin FrFresh false), Some (mkDesc DNone _ _) =>
+    Some (stack_with dt dl da)
+  | _, _, _, _, _, _ => None
+  end.
+
+(* ------------------------------------------------------------------ atom_slice(inplace=False) from descriptors *)
+Definition atom_slice_with (dt dl da : desc) (w : world) (r : nat) (idx : list Z) : world * res :=
+  match nth_error (trajs w) r with
+  | None => (w, RErr EOther)
+  | Some t =>
+    match d_src dt, d_src dl, d_src da with
+    | DF OSelf STime AWhole, DF OSelf sl AWhole, DF OSelf sa AWhole =>
+      match cell_of sl t, cell_of sa t with
+      | Some lsrc, Some asrc =>
+        match norm_indices (na t) idx with
+        | None => (w, RErr EIndex)
+        | Some ni =>
+          let fs := map (Sub ni) (frames w t) in
+          let '(w1, b) := alloc_x w fs in
+          let '(w2, tl) := fresh_top w1 in
+          let ks := subset_chains 0 (chains t) idx in
+          let '(w3, ul', ua') :=
+            if have_cell t then
+              let '(wa, l') := if eff_copy (d_fresh dl) true then copy_oarr w2 lsrc else (w2, lsrc) in
+              let '(wb, a') := if eff_copy (d_fresh da) true then copy_oarr wa asrc else (wa, asrc) in (wb, l', a')
+            else (w2, None, None) in
+          let '(w4, tm') := if eff_copy (d_fresh dt) true then copy_arr w3 (tm t) else (w3, tm t) in
+          match construct w4 b (seq 0 (length fs)) (length ni) tl ks tm' ul' ua' with
+          | (_, RErr e) => (w, RErr e)
+          | ok => ok
+          end
+        end
+      | _, _ => (w, RErr EOther)
+      end
+    | _, _, _ => (w, RErr EOther)
+    end
+  end.
+
+Definition atom_slice_sem (f : flow) : option (world -> nat -> list Z -> world * res) :=
+  match norm (f_xyz f), norm (f_time f), norm (f_len f), norm (f_ang f), norm (f_top f), norm (f_traces f) with
+  | Some (mkDesc (DF OSelf SXyz AAtoms) FrFresh false), Some dt, Some dl, Some da, Some (mkDesc DSubset FrFresh false),
+    Some (mkDesc DNone _ _) => Some (atom_slice_with dt dl da)
+  | _, _, _, _, _, _ => None
+  end.
+
+(* ------------------------------------------------------------------ in-place methods: what happens to the cache *)
+(* The in-place methods differ from one another in the coordinates they write (modelled in MD.Traj.Model); what the
+   source text decides, and what the property depends on, is the fate of _rmsd_traces.  An effect summary says how
+   _xyz is (re)bound -- directly, or through the xyz property, whose setter's own summary is then applied -- and what
+   is assigned to _rmsd_traces. *)
+Inductive cache_fate := CReset | CKeep | CFromCentring.
+
+Definition fate_of (xyz_setter_fate : cache_fate) (e_xyz e_traces : fexp) : option cache_fate :=
+  match norm e_traces with
+  | Some (mkDesc DNone _ _) => Some CReset
+  | Some (mkDesc DCentred _ _) => Some CFromCentring
+  | Some (mkDesc DKeep _ _) =>
+      (* not assigned directly: reset only if _xyz went through the property setter *)
+      match norm e_xyz with
+      | Some d => Some (if d_setter d then xyz_setter_fate else CKeep)
+      | None => None
+      end
+  | _ => None
+  end.
+
+Definition apply_fate (f : cache_fate) (old centred : option (arr fr)) : option (arr fr) :=
+  match f with CReset => None | CKeep => old | CFromCentring => centred end.
+
+(* atom_slice(inplace=True) / remove_solvent(inplace=True) with a given fate of the cache *)
+Definition atom_slice_inplace_with (f : cache_fate) (w : world) (r : nat) (idx : list Z) : world * res :=
+  match nth_error (trajs w) r with
+  | None => (w, RErr EOther)
+  | Some t =>
+    match norm_indices (na t) idx with
+    | None => (w, RErr EIndex)
+    | Some ni =>
+      let fs := map (Sub ni) (frames w t) in
+      let '(w1, b) := alloc_x w fs in
+      let '(w2, tl) := fresh_top w1 in
+      let ks := subset_chains 0 (chains t) idx in
+      (put w2 r (mkTraj b (seq 0 (length fs)) (length ni) (tm t) (ul t) (ua t) tl ks (apply_fate f (tr t) None) (tdef t)), ROk)
+    end
+  end.
+
+(* t.xyz = <fresh array>  with a given fate *)
+Definition set_xyz_new_with (f : cache_fate) (w : world) (r m natoms : nat) : world * res :=
+  match nth_error (trajs w) r with
+  | None => (w, RErr EOther)
+  | Some t =>
+    if negb (Nat.eqb (length (kinds t)) natoms) then (w, RErr EValue) else
+    let '(w1, s) := fresh_src w in
+    let fs := map (fun f => Raw s f natoms) (seq 0 m) in
+    let '(w2, b) := alloc_x w1 fs in
+    (put w2 r (mkTraj b (seq 0 m) natoms (tm t) (ul t) (ua t) (tloc t) (chains t) (apply_fate f (tr t) None) (tdef t)), ROk)
+  end.
+
+(* superpose with a given fate of the cache on its successful path *)
+Definition superpose_with (f : cache_fate) (w : world) (r ref : nat) (frame : Z) : world * res :=
+  match nth_error (trajs w) r, nth_error (trajs w) ref with
+  | Some t, Some q =>
+    match norm_index (nframes q) frame with
+    | None => (w, RErr EIndex)
+    | Some fi =>
+      if negb (Nat.eqb (na t) (na q)) then
+        (write_x w (xb t) (xp t) (map cen (frames w t)), RErr EValue)
+      else
+        let rf := nth fi (frames w q) dfr in
+        let w1 := write_x w (xb t) (xp t) (map (fun x => Sup x rf) (frames w t)) in
+        if negb (Nat.eqb (length (kinds t)) (na t)) then (w1, RErr EValue)
+        else (put w1 r (set_tr t (apply_fate f (tr t) None)), ROk)
+    end
+  | _, _ => (w, RErr EOther)
+  end.
+
+(* center_coordinates(mass_weighted) with the two fates of its two branches *)
+Definition center_with (f_plain f_mw : cache_fate) (w : world) (r : nat) (mass_weighted : bool) : world * res :=
+  match nth_error (trajs w) r with
+  | None => (w, RErr EOther)
+  | Some t =>
+    if mass_weighted then
+      if negb (Nat.eqb (length (kinds t)) (na t)) then (w, RErr EValue) else
+      let w1 := write_x w (xb t) (xp t) (map (CenM (kinds t)) (frames w t)) in
+      (put w1 r (set_tr t (apply_fate f_mw (tr t) None)), ROk)
+    else
+      if Nat.eqb (nframes t) 0 then (w, RErr EIndex) else
+      let fs := map cen (frames w t) in
+      let w1 := write_x w (xb t) (xp t) fs in
+      let '(w2, c) := new_arr w1 fs in
+      (put w2 r (set_tr t (apply_fate f_plain (tr t) (Some c))), ROk)
+  end.
+
+(* ------------------------------------------------------------------ the extracted summaries of the in-place methods *)
+Record effects := mkEffects {
+  e_setter_xyz : fexp; e_setter_traces : fexp;           (* xyz.setter: self._xyz = ..., self._rmsd_traces = ... *)
+  e_aslice_xyz : fexp; e_aslice_traces : fexp;           (* atom_slice, `if inplace:` branch *)
+  e_center_traces : fexp;                                (* center_coordinates, plain branch: self._rmsd_traces = ... *)
+  e_center_mw_xyz : fexp;                                (* center_coordinates, mass-weighted branch: self.xyz -= ... *)
+  e_superpose_xyz : fexp;                                (* superpose: how the result is bound *)
+  e_remove_solvent_delegates : bool;                     (* return self.atom_slice(atom_indices, inplace=inplace) *)
+  e_time_touches_cache : bool; e_cell_touches_cache : bool }.   (* time / unitcell_* setters assign _rmsd_traces or _xyz *)
+
+Definition setter_fate (e : effects) : option cache_fate := fate_of CKeep (e_setter_xyz e) (e_setter_traces e).
+
+(* ------------------------------------------------------------------ checkers (for the repaired model) *)
+Definition is_desc (o : option desc) (d : desc) : bool := match o with Some x => desc_eqb x d | None => false end.
+Definition dF (s : src) (a : access) (f : fresh) : desc := mkDesc (DF OSelf s a) f false.
+
+Definition check_slice (f : flow) : bool :=
+  is_desc (norm (f_xyz f)) (dF SXyz AKey FrIfCopy) && is_desc (norm (f_time f)) (dF STime AKey FrIfCopy) &&
+  is_desc (norm (f_len f)) (dF SLen AKey FrIfCopy) && is_desc (norm (f_ang f)) (dF SAng AKey FrIfCopy) &&
+  is_desc (norm (f_top f)) (dF STop AWhole FrIfCopy) && is_desc (norm (f_traces f)) (dF STraces AKey FrFresh).
+
+Definition check_join (f : flow) : bool :=
+  is_desc (norm (f_xyz f)) (mkDesc (DConcat SXyz) FrFresh false) && is_desc (norm (f_time f)) (mkDesc (DConcat STime) FrFresh false) &&
+  is_desc (norm (f_len f)) (mkDesc (DConcat SLen) FrFresh false) && is_desc (norm (f_ang f)) (mkDesc (DConcat SAng) FrFresh false) &&
+  is_desc (norm (f_top f)) (dF STop AWhole FrFresh) && is_desc (norm (f_traces f)) (mkDesc DNone FrSame false).
+
+Definition check_stack (f : flow) : bool :=
+  is_desc (norm (f_xyz f)) (mkDesc DHstack FrFresh false) && is_desc (norm (f_time f)) (dF STime AWhole FrSame) &&
+  is_desc (norm (f_len f)) (dF SLen AWhole FrSame) && is_desc (norm (f_ang f)) (dF SAng AWhole FrSame) &&
+  is_desc (norm (f_top f)) (mkDesc DTopJoin FrFresh false) && is_desc (norm (f_traces f)) (mkDesc DNone FrSame false).
+
+Definition check_atom_slice (f : flow) : bool :=
+  is_desc (norm (f_xyz f)) (dF SXyz AAtoms FrFresh) && is_desc (norm (f_time f)) (dF STime AWhole FrFresh) &&
+  is_desc (norm (f_len f)) (dF SLen AWhole FrFresh) && is_desc (norm (f_ang f)) (dF SAng AWhole FrFresh) &&
+  is_desc (norm (f_top f)) (mkDesc DSubset FrFresh false) && is_desc (norm (f_traces f)) (mkDesc DNone FrSame false).
+
+Definition fate_eqb (a b : cache_fate) : bool :=
+  match a, b with CReset, CReset | CKeep, CKeep | CFromCentring, CFromCentring => true | _, _ => false end.
+
+(* the fates the source text gives the cache: (xyz setter, atom_slice in place, plain centring, mass-weighted centring,
+   superpose); a method that binds _xyz through the property inherits the setter's fate *)
+Definition fates (e : effects) : option (cache_fate * cache_fate * cache_fate * cache_fate * cache_fate) :=
+  match setter_fate e with
+  | Some sf =>
+    match fate_of sf (e_aslice_xyz e) (e_aslice_traces e), fate_of sf FKeep (e_center_traces e),
+          fate_of sf (e_center_mw_xyz e) FKeep, fate_of sf (e_superpose_xyz e) FKeep with
+    | Some a, Some c, Some m, Some s => Some (sf, a, c, m, s)
+    | _, _, _, _ => None
+    end
+  | None => None
+  end.
+
+Record inplace_ops := mkInplace {
+  op_set_xyz_new : world -> nat -> nat -> nat -> world * res;
+  op_atom_slice_inplace : world -> nat -> list Z -> world * res;
+  op_center : world -> nat -> bool -> world * res;
+  op_superpose : world -> nat -> nat -> Z -> world * res }.
+
+Definition effects_sem (e : effects) : option inplace_ops :=
+  if e_remove_solvent_delegates e && negb (e_time_touches_cache e) && negb (e_cell_touches_cache e) then
+    match fates e with
+    | Some (sf, a, c, m, s) =>
+      Some (mkInplace (set_xyz_new_with sf) (atom_slice_inplace_with a) (center_with c m) (superpose_with s))
+    | None => None
+    end
+  else None.
+
+Definition check_effects (e : effects) : bool :=
+  e_remove_solvent_delegates e && negb (e_time_touches_cache e) && negb (e_cell_touches_cache e) &&
+  match fates e with
+  | Some (sf, a, c, m, s) =>
+    fate_eqb sf CReset && fate_eqb a CReset && fate_eqb c CFromCentring && fate_eqb m CReset && fate_eqb s CReset
   | None => false
-  end && flow_eqb jn join_flow_ref && flow_eqb st stack_flow_ref && flow_eqb asl atom_slice_flow_ref.
+  end.
